@@ -268,13 +268,17 @@ Definition login_relative (prefix redirect : bytes) : bytes :=
   (if beq prefix [] || beq prefix [slash] then [] else prefix) ++ s_oauth2_login ++
   match redirect with [] => [] | _ => s_redirect_q ++ query_escape redirect end.
 
-(* Ingresses.MatchingPath: the longest configured non-empty ingress path that is a prefix *)
-Fixpoint matching_path (paths : list bytes) (reqpath : bytes) (result : bytes) : bytes :=
+(* Ingresses.MatchingPath: the longest configured non-empty ingress path that is a prefix;
+   seg = true: on a segment boundary (hasPathPrefix, the current code), false: strings.HasPrefix *)
+Definition ingress_prefix (seg : bool) (reqpath p : bytes) : bool :=
+  if seg then beq reqpath p || has_prefix reqpath (p ++ [slash]) else has_prefix reqpath p.
+
+Fixpoint matching_path (seg : bool) (paths : list bytes) (reqpath : bytes) (result : bytes) : bytes :=
   match paths with
   | [] => result
   | p :: r =>
-    if negb (beq p []) && has_prefix reqpath p && (length result <? length p)%nat
-    then matching_path r reqpath p else matching_path r reqpath result
+    if negb (beq p []) && ingress_prefix seg reqpath p && (length result <? length p)%nat
+    then matching_path seg r reqpath p else matching_path seg r reqpath result
   end.
 
 (** * the wildcard handler's decision for a request without a valid session *)
@@ -301,8 +305,8 @@ Definition handle_autologin (prefix : bytes) (r : request) : response :=
     let target := match rq_referer r with [] => prefix | t => t end in
     Unauthorized401 (login_relative prefix target) (accepts (rq_accept r) [s_any; s_app_json]).
 
-Definition handler_unauth (m : bytes -> bytes -> bool) (clean_first enabled : bool) (pats ingress_paths : list bytes)
+Definition handler_unauth (m : bytes -> bytes -> bool) (clean_first seg enabled : bool) (pats ingress_paths : list bytes)
            (r : request) : response :=
   if needs_login m clean_first enabled pats false (rq_path r)
-  then handle_autologin (matching_path ingress_paths (rq_path r) []) r
+  then handle_autologin (matching_path seg ingress_paths (rq_path r) []) r
   else Forward.
